@@ -182,8 +182,8 @@ def kani_part(prop, tier, seed, tmp, only=None):
         rows.append(row)
         checks += r['checks']
         rel_fail = 0
-        if r['status'] not in ('success', 'failed'):
-            undec.append('%s: no result (%s)' % (nm, r['status']))
+        if r['status'] not in ('success', 'failed') or (r['status'] == 'failed' and r['checks'] == 0 and not r['failures']):
+            undec.append('%s: no verification result (%s: timeout, memory limit, crash or compile error)' % (nm, r['status']))
             continue
         for f in r['failures']:
             tags, kind = kanileg.classify_failure(e, f['desc'])
